@@ -232,6 +232,7 @@ def run(ctx):
     reset_flag_pairing(ctx, "R05-g")
     import c13
     c13.parse_errors_are_errors(ctx, "R05-h")
+    parsed_text_accepted_only_without_errors(ctx, "R05-k")
     c13.registered_modules_come_from_their_file(ctx, "R05-i")
     c13.resolution_errors_not_overwritten(ctx, "R05-j")
 
@@ -352,3 +353,34 @@ def reset_flag_pairing(ctx, rid):
                                 "can_reset may become true only on a path that has just tested has_non_ignorable_parser_errors "
                                 "to be false (and every later setter of the flag must clear it again)", ["%s:%d" % (f.file, e.line)])
     r.floor(rid, n_set + n_store, 2, "flag updates in SilentOnIgnoredFilesEmitter")
+
+
+def parsed_text_accepted_only_without_errors(ctx, rid):
+    """R05-k: the two parse entry points hand back a tree only if the session recorded no error (or only ignorable ones)"""
+    from absint import explore, vkey
+    p, r = ctx.p, ctx.r
+    r.rule(rid, "Parser::parse_crate and Parser::parse_file_as_module: on every path that returns Ok(tree), "
+                "`ParseSess::has_errors()` answered false or `ParseSess::can_reset_errors()` answered true *in that function, after "
+                "the parse*.  rustc's lexer reports some errors (unknown escapes, stray characters) and goes on; the parser then "
+                "succeeds on the recovered tokens.  Only the session's error state knows, and a file accepted in spite of it is "
+                "rewritten from a tree that is not its text, with exit status 0.  Any other acceptance test (a flag computed inside "
+                "the parsing closure, a count compared with a baseline taken after the file was lexed) is reported")
+    n = 0
+    for nm in ("parse_file_as_module", "parse_crate"):
+        f = p.named(nm, within="parse::parser::Parser")
+        if f is None:
+            r.undecidable(rid, "parse::parser::Parser::%s not found" % nm)
+            continue
+        for path in explore(f, pure=lambda c: True, max_paths=2000, program=p):
+            if path.end != "ret" or path.ret is None or not vkey(path.ret).startswith("Ok("):
+                continue
+            n += 1
+            ok = any(("ParseSess::has_errors(" in k and v is False) or ("ParseSess::can_reset_errors(" in k and v is True)
+                     for k, v in path.decisions)
+            r.instance(rid, "%s ↦ Ok after %s" % (nm, [("%s=%s" % (k.rsplit("::", 1)[-1][:28], v if not isinstance(v, tuple) else v[1]))
+                                                        for k, v in path.decisions][-2:]),
+                       "ok" if ok else "violation", "%s:%d" % (f.file, f.line))
+            if not ok:
+                r.violation(rid, "Parser::%s returns a tree on a path that never consulted the session's error state" % nm,
+                            "decisions on the path: %s" % [k[-40:] for k, v in path.decisions], ["%s:%d" % (f.file, f.line)])
+    r.floor(rid, n, 4, "Ok-returning paths of the parse entry points")
